@@ -441,6 +441,23 @@ func interpretContainerMethod(info *types.Info, fd *ast.FuncDecl) (exits []strin
 						continue
 					}
 				}
+				// whole-element overwrite through the pointer: *p[i] = …  (myIdx and parent are copied with it)
+				starHit := false
+				for _, l := range s.Lhs {
+					if st, ok := l.(*ast.StarExpr); ok {
+						x := st.X
+						if pe, ok := x.(*ast.ParenExpr); ok {
+							x = pe.X
+						}
+						if ix, ok := x.(*ast.IndexExpr); ok && isProps(info, ix.X) {
+							d.points[types.ExprString(ix.Index)] = true
+							starHit = true
+						}
+					}
+				}
+				if starHit {
+					continue
+				}
 				if len(s.Lhs) != 1 || len(s.Rhs) != 1 {
 					if mentionsInvariantState(info, s) {
 						undecided = append(undecided, "unrecognised assignment "+types.ExprString(s.Lhs[0])+" = …")
@@ -716,6 +733,24 @@ func mentionsInvariantState(info *types.Info, n ast.Node) bool {
 			}
 			if ix, ok := l.(*ast.IndexExpr); ok && isProps(info, ix.X) {
 				hit = true
+			}
+			if st, ok := l.(*ast.StarExpr); ok {
+				// a store through a pointer: to an element of the list, or to any value of the element's type
+				x := st.X
+				if pe, ok := x.(*ast.ParenExpr); ok {
+					x = pe.X
+				}
+				if ix, ok := x.(*ast.IndexExpr); ok && isProps(info, ix.X) {
+					hit = true
+				} else if tv, ok := info.Types[st]; ok {
+					if stt, ok := tv.Type.Underlying().(*types.Struct); ok {
+						for i := 0; i < stt.NumFields(); i++ {
+							if stt.Field(i).Name() == "myIdx" {
+								hit = true
+							}
+						}
+					}
+				}
 			}
 		}
 		return true
